@@ -392,8 +392,29 @@ impl Pcap {
 
     /// Write global header to a newly created pcap file
     pub fn new_with_magic(file: Rc<FileHandle>, magic: u32) -> io::Result<Self> {
+        Self::new_with_header(file, PcapGlobalHeader::new(magic))
+    }
+
+    /// Create a pcap whose global header is a copy of that of another pcap
+    /// (e.g. the output stream of a filter gets the header of its input)
+    pub fn new_like(file: Rc<FileHandle>, other: &Pcap) -> io::Result<Self> {
+        let global_header = {
+            let h = other.header.borrow();
+            PcapGlobalHeader {
+                magic_number: h.magic_number,
+                version_major: h.version_major,
+                version_minor: h.version_minor,
+                thiszone: h.thiszone,
+                sigfigs: h.sigfigs,
+                snaplen: h.snaplen,
+                linktype: h.linktype,
+            }
+        };
+        Self::new_with_header(file, global_header)
+    }
+
+    fn new_with_header(file: Rc<FileHandle>, global_header: PcapGlobalHeader) -> io::Result<Self> {
         // Write the pcap global header to the file
-        let global_header = PcapGlobalHeader::new(magic);
         let bytes: Vec<u8> = (&global_header).into();
         match file.as_ref() {
             FileHandle::Writer(writer) => {
@@ -410,10 +431,15 @@ impl Pcap {
             }
         }
 
+        let ts_format = if global_header.magic_number == PCAP_MAGIC_NS {
+            PcapTsFormat::NanoSeconds
+        } else {
+            PcapTsFormat::MicroSeconds
+        };
         Ok(Self {
             file,
             header: RefCell::new(global_header),
-            ts_format: PcapTsFormat::MicroSeconds,
+            ts_format,
         })
     }
 
